@@ -1,0 +1,13 @@
+/*
+* Verification hooks (compiled only with -DSVT_AV1_VERIF); see EbVerifHooks.h.
+*/
+#include "EbVerifHooks.h"
+
+#ifdef SVT_AV1_VERIF
+#include <stddef.h>
+volatile SvtVerifEmitFn svt_verif_emit_fn = NULL;
+void svt_verif_set_tracer(SvtVerifEmitFn fn) { svt_verif_emit_fn = fn; }
+#else
+/* keep the translation unit non-empty for strict compilers */
+typedef int svt_verif_hooks_disabled_t;
+#endif
